@@ -2,12 +2,15 @@
 Model of `hickory_proto::dnssec::tbs::TBS::new` (crates/proto/src/dnssec/tbs.rs) — the byte
 string that is signed / verified for an RRset — together with what it calls:
 
-* `impl Ord for Record` (rr/record.rs): owner, type, class, **TTL**, then `RData::cmp`;
-* `RData::cmp` (rr/record_data.rs) = comparison of `to_bytes()`, the *non-canonical* encoding
-  (fresh `BinEncoder` at offset 0, `canonical_form = false`, `NameEncoding::Compressed`, original
-  letter case; per type `with_rdata_behavior`);
-* `RData::emit` under `canonical_form = true` (per type `RDataEncoding`);
+* `RData::emit` under `canonical_form = true` (per type `RDataEncoding`) — each collected record's
+  RDATA is pre-encoded in canonical form, the encodings are `sort`ed and `dedup`ed (RFC 4034 §6.3);
 * `SigInput::emit` (dnssec/rdata/sig.rs), `determine_name` (tbs.rs).
+
+`tbsImpl` is the code as it is (since /repo 628570a).  `tbsPreFix` is the model of `TBS::new` before
+that repair, kept only for the regression theorems of `Proofs/C05PreFix.lean`: it sorted with
+`impl Ord for Record` (rr/record.rs: owner, type, class, **TTL**, then `RData::cmp`), `RData::cmp`
+(rr/record_data.rs) being the comparison of `to_bytes()`, the *non-canonical* encoding (fresh
+`BinEncoder` at offset 0, `NameEncoding::Compressed`, original letter case), and kept duplicates.
 
 RDATA tier modelled structurally: A, AAAA, NS, CNAME, PTR, MX, SOA, SRV, TXT.  Every other type is
 `opaque key canon`: the two encodings are computed by the real code and supplied by the harness.
@@ -205,8 +208,8 @@ def collect (name : Name) (cls : Nat) (i : SigInput) (records : List Record) : L
 /-- the encoder buffer is a `MaximalBuf` of `u16::MAX` bytes -/
 def MAX_BUF : Nat := 65535
 
-/-- `TBS::new` / `TBS::from_input` -/
-def tbsImpl (name : Name) (cls : Nat) (i : SigInput) (records : List Record) : Outcome Bytes :=
+/-- `TBS::new` **before the repair 628570a** (regression model): sort by `impl Ord for Record`, no dedup -/
+def tbsPreFix (name : Name) (cls : Nat) (i : SigInput) (records : List Record) : Outcome Bytes :=
   let rrset := sortStable recordLe (collect name cls i records)
   match determineName name i.numLabels with
   | .ok n =>
@@ -218,7 +221,7 @@ def tbsImpl (name : Name) (cls : Nat) (i : SigInput) (records : List Record) : O
   | .err => .err
   | .panic s => .panic s
 
-/-! ### decidable classes of the three known deviations (mirrored by the harness) -/
+/-! ### decidable classes of the three pre-repair deviations (regression; mirrored by the harness) -/
 
 /-- two collected records have the same canonical RDATA -/
 def hasDup (rrset : List Record) : Bool :=
@@ -237,12 +240,10 @@ lower-case, nothing compressed) -/
 def rdataCaseCanonical (rrset : List Record) : Bool :=
   rrset.all fun r => canonBytes r.data == some (toBytes r.data)
 
-/-! ### the repaired `TBS::new` (repo-patches/C05-tbs-canonical-order.diff)
+/-! ### `TBS::new` as it is (since the repair /repo 628570a)
 
-Not the code as it is today: this is the model of `TBS::new` *after* the proposed repair — each
-collected record's RDATA is first encoded in canonical form, the encodings are `sort`ed and
-`dedup`ed, and the RRs are emitted from them.  `Proofs/C05Fixed.lean` proves the full-strength
-`tbs_eq_spec` for it. -/
+Each collected record's RDATA is first encoded in canonical form (a failing `emit` fails the whole
+call), the encodings are `sort`ed and `dedup`ed, and the RRs are emitted from them. -/
 
 /-- the pre-encoding loop (`record.data.emit(&mut rdata_encoder)?`) -/
 def canonAll : List Record → Option (List Bytes)
@@ -261,8 +262,8 @@ def dedupAdj : List Bytes → List Bytes
 /-- `Vec<u8>: Ord` -/
 def bytesLe (a b : Bytes) : Bool := compare a b != .gt
 
-/-- `TBS::new` after the repair -/
-def tbsFixed (name : Name) (cls : Nat) (i : SigInput) (records : List Record) : Outcome Bytes :=
+/-- `TBS::new` / `TBS::from_input` -/
+def tbsImpl (name : Name) (cls : Nat) (i : SigInput) (records : List Record) : Outcome Bytes :=
   match canonAll (collect name cls i records) with
   | none => .err
   | some rds =>
